@@ -307,7 +307,9 @@ def step (m : MState) (e : TEv) : MState :=
     let w := match w.inst? i with
       | some x =>
         -- C09: no new store operation after a stop returned (until the next Start)
-        let w := checkW w (x.stoppedSince.isNone) "C09" "store-op-after-stop" s!"instance {i} issues {repr kind} after its stop returned"
+        -- (the Delete of a StopWithContext that is still in progress is part of that call, whatever another, overlapping
+        -- stop call has already returned)
+        let w := checkW w (x.stoppedSince.isNone || (kind == .delete && decide (x.stopsInProgress > 0))) "C09" "store-op-after-stop" s!"instance {i} issues {repr kind} after its stop returned"
         -- C13: no spinning — more than 60 store calls of one instance within 100 ms is not timer-paced activity
         let recent := e.t :: (x.recentCalls.filter fun t => t + 100000000 > e.t)
         let w := checkW w (recent.length ≤ 60 || x.recentCalls.length > 60) "C13" "store-hammering" s!"instance {i} issued {recent.length} store operations within 100 ms"
